@@ -1,4 +1,108 @@
-(* placeholder until the proofs are integrated *)
-From DictIO Require Import Chars Str Value Scalar.
-Theorem C07_placeholder : True. Proof. exact I. Qed.
-Print Assumptions C07_placeholder.
+(* C07  SDict behaves as a dict, and merge() never overwrites or loses anything. *)
+From Coq Require Import NArith ZArith List Bool.
+From DictIO Require Import Chars Str Value Scalar KeyPath SDict TreeSpec SDictProofs.
+Import ListNotations.
+
+(* Python dicts have unique keys at every level: the state and every argument of an operation are well
+   formed ([wf], [wf_op]); [ordinary] alone does not imply it and the statements fail on duplicated keys
+   (see SDictProofs.NeedWf for the concrete failures). *)
+
+(* one step: on ordinary data every operation of the dict API (and merge) acts on the data exactly as the
+   builtin dict specification does, errors included *)
+Theorem C07_step : forall s op, ordinary_kvs (sd_data s) = true -> ordinary_op op = true ->
+  wf (Dict (sd_data s)) = true -> wf_op op = true ->
+  match sd_step s op, py_step (sd_data s) op with
+  | Ok s', Ok d' => sd_data s' = d'
+  | Raise e, Raise e' => e = e'
+  | _, _ => False
+  end.
+Proof. exact sd_step_refines. Qed.
+Print Assumptions C07_step.
+
+(* every reachable state: any history *)
+Theorem C07_history : forall ops s, ordinary_kvs (sd_data s) = true -> forallb ordinary_op ops = true ->
+  wf (Dict (sd_data s)) = true -> forallb wf_op ops = true ->
+  sd_data (sd_run s ops) = py_run (sd_data s) ops /\
+  ordinary_kvs (sd_data (sd_run s ops)) = true /\
+  wf (Dict (sd_data (sd_run s ops))) = true.
+Proof. exact sd_run_refines. Qed.
+Print Assumptions C07_history.
+
+(* the clean-up after update / merge only ever deletes placeholder keys *)
+Theorem C07_clean_only_placeholders : forall s k, ordinary_key k = true ->
+  wf (Dict (sd_data s)) = true ->
+  alookup k (sd_data (sd_clean s)) = alookup k (sd_data s) \/
+  exists sub sub', alookup k (sd_data s) = Some (Dict sub) /\ alookup k (sd_data (sd_clean s)) = Some (Dict sub').
+Proof. exact clean_keeps_ordinary_keys. Qed.
+Print Assumptions C07_clean_only_placeholders.
+
+(* merge algebra (data level, first-wins recursive merge) *)
+Theorem C07_merge_keeps : forall target other p v,
+  get_dpath (Dict target) p = Some (Leaf v) -> get_dpath (Dict (merge_spec target other)) p = Some (Leaf v).
+Proof. exact merge_keeps_leaves. Qed.
+Print Assumptions C07_merge_keeps.
+
+(* existing entries win: a path of [other] is present after the merge unless an existing non-dict entry of
+   [target] on a proper non-empty prefix of the path blocked it *)
+Theorem C07_merge_adds : forall target other p x, wf (Dict other) = true ->
+  get_dpath (Dict other) p = Some x ->
+  (exists y, get_dpath (Dict (merge_spec target other)) p = Some y) \/
+  (exists r t, strict_prefix r p /\ r <> [] /\ get_dpath (Dict target) r = Some t /\ (forall kvs, t <> Dict kvs)).
+Proof. exact merge_adds_paths. Qed.
+Print Assumptions C07_merge_adds.
+
+Theorem C07_merge_order : forall target other, exists added, map fst (merge_spec target other) = map fst target ++ added.
+Proof. exact merge_keeps_order. Qed.
+Print Assumptions C07_merge_order.
+
+Theorem C07_merge_idem : forall target other, wf (Dict other) = true ->
+  merge_spec (merge_spec target other) other = merge_spec target other.
+Proof. exact merge_idempotent. Qed.
+Print Assumptions C07_merge_idem.
+
+(* the model's fuelled merge without self-references is the specification merge *)
+Theorem C07_merge_model : forall s m o, ordinary_kvs (sd_data s) = true -> ordinary_kvs m = true ->
+  wf (Dict (sd_data s)) = true -> wf (Dict m) = true ->
+  sd_data (sd_merge s m o) = merge_spec (sd_data s) m.
+Proof. exact sd_merge_is_spec. Qed.
+Print Assumptions C07_merge_model.
+
+(* side tables: update = other wins, merge = existing wins *)
+Theorem C07_tables : forall (a b : list (N * str)) i, ids_nodup b ->
+  tlookup i (tupdate a b) = (match tlookup i b with Some v => Some v | None => tlookup i a end) /\
+  tlookup i (tmerge a b) = (match tlookup i a with Some v => Some v | None => tlookup i b end).
+Proof. exact tables_update_vs_merge. Qed.
+Print Assumptions C07_tables.
+
+(* ---- non-vacuity: a concrete ordinary, well formed state and history satisfying every hypothesis of
+   C07_history (update with an overlapping nested dict, merge, delete) -------------------------------- *)
+Module C07_nonvacuous.
+  Definition ka := KS [97%N].  Definition kb := KS [98%N].  Definition kc := KS [99%N].  Definition kd := KS [100%N].
+  Definition one := Leaf (SInt 1).  Definition two := Leaf (SInt 2).
+  Definition s0 : sdict :=
+    mkSD [(ka, Dict [(kb, one)]); (kc, Leaf (SStr [120%N]))] [(1%N, [35%N; 120%N])] [] [] [].
+  Definition o1 : sdict := mkSD [] [(1%N, [35%N; 121%N]); (2%N, [35%N; 122%N])] [] [] [].
+  Definition ops : list sdop :=
+    [ OUpdate [(ka, Dict [(kc, two)])] None;
+      OMerge [(ka, Dict [(kc, one); (kd, Dict [(kb, two)])]); (kd, one)] (Some o1);
+      ODel kc ].
+
+  Example hypotheses_hold :
+    ordinary_kvs (sd_data s0) = true /\ forallb ordinary_op ops = true /\
+    wf (Dict (sd_data s0)) = true /\ forallb wf_op ops = true.
+  Proof. vm_compute. auto. Qed.
+
+  Example conclusion_instance :
+    sd_data (sd_run s0 ops) = [(ka, Dict [(kc, two); (kd, Dict [(kb, two)])]); (kd, one)] /\
+    py_run (sd_data s0) ops = [(ka, Dict [(kc, two); (kd, Dict [(kb, two)])]); (kd, one)].
+  Proof. vm_compute. auto. Qed.
+
+  Example history_applies :
+    sd_data (sd_run s0 ops) = py_run (sd_data s0) ops /\
+    ordinary_kvs (sd_data (sd_run s0 ops)) = true /\
+    wf (Dict (sd_data (sd_run s0 ops))) = true.
+  Proof.
+    destruct hypotheses_hold as [H1 [H2 [H3 H4]]]. exact (C07_history ops s0 H1 H2 H3 H4).
+  Qed.
+End C07_nonvacuous.
+Print Assumptions C07_nonvacuous.history_applies.
